@@ -432,9 +432,10 @@ class Flattener:
 
     def apply_augment(self, target, ag, level=None):
         """level: nesting depth of the uses whose augment this is (None: an augment statement of the module). The order
-        among the children that several augments add to one node is not fixed by RFC 7950; libyang connects the
-        augments of an outer uses before those of the uses nested in its grouping, and the flattened twin is written
-        in that order so that the prints can be compared line by line."""
+        among the children that several uses-augments add to one node is not fixed by RFC 7950; libyang mostly connects
+        the augments of an outer uses before those of the uses nested in its grouping (followed here), but with three
+        levels the order also depends on which other augments are pending (unordered removal from its set), so runs of
+        such siblings are additionally sorted by name before the prints are compared (norm_print)."""
         kids = self.expand_nodes([c for c in ag.subs if c.kw in DATA_KW])
         iffs, when = self.own_conditions(ag)
         if target.kw == "choice":
@@ -444,6 +445,8 @@ class Flattener:
         for n in kids:
             self.push(n, iffs, when)
             n.auglevel = level
+            if level is not None:
+                self.uses_aug_names = getattr(self, "uses_aug_names", set()) | {n.arg}
         pos = len(target.subs)
         if level is not None:
             for i, c in enumerate(target.subs):
@@ -765,13 +768,20 @@ class Gen:
             if kind in ("int", "dec") and (d == 0 and rng.random() < 0.7 or d > 0 and rng.random() < 0.85):
                 t.add(self.restr_stmt(eff.ty(), eff.range))
             if kind == "str":
-                if rng.random() < 0.75:
+                # first level: mostly a length of several parts; later levels: only a pattern (the inherited length is
+                # copied), only a length, both, or nothing
+                shape = rng.choice(["len", "len", "both", "pat"]) if d == 0 else rng.choice(["pat", "pat", "len", "both", "none"])
+                if shape in ("len", "both"):
                     ty = R.Ty("string")
                     base = eff.length
                     small = [(0, 12)] if base is None else [(lo, min(hi, 12)) for lo, hi in base if lo <= 12]
                     parts = legal_parts(rng, ty, small or base)
+                    for _ in range(6):
+                        if len(parts) >= 2 or d > 0 or rng.random() < 0.3:
+                            break
+                        parts = legal_parts(rng, ty, small or base)
                     t.add(S("length", R.render(rng, ty, parts, [" "], style=0).strip()))
-                if rng.random() < 0.5:
+                if shape in ("pat", "both"):
                     t.add(S("pattern", rng.choice(["[a-z]*", "[a-m]*", "[a-z0-9]*"])))
             t.stamp("fa")
             eff, dflt, units = self.fl.type_eff(t)
@@ -806,6 +816,15 @@ class Gen:
             if eff.builtin in R.INT_BOUNDS or eff.builtin == "decimal64":
                 if rng.random() < 0.3 and not key:
                     t.add(self.restr_stmt(eff.ty(), eff.range).stamp(mod))
+            if eff.builtin == "string" and t.arg not in BUILTIN and not key:
+                r = rng.random()
+                if r < 0.3:
+                    t.add(S("pattern", rng.choice(["[a-z]*", "[a-m]*", "[a-z0-9]*"])).stamp(mod))       # the length is inherited
+                elif r < 0.45 and eff.length:
+                    small = [(lo, min(hi, 12)) for lo, hi in eff.length if lo <= 12]
+                    if small:
+                        parts = legal_parts(rng, R.Ty("string"), small)
+                        t.add(S("length", R.render(rng, R.Ty("string"), parts, [" "], style=0).strip()).stamp(mod))
             return t
         return S("type", "uint8").stamp(mod)
 
@@ -981,6 +1000,18 @@ class SetGen(Gen):
             if rf is not None and path not in done:
                 done.add(path)
                 u.add(rf)
+        # refine again what a uses nested in the grouping already refined (same property, other value), next to
+        # refines of its siblings, in a random statement order
+        again = [c for c in cands if getattr(c[1], "refined", None) and c[0] not in done]
+        for path, t, is_key, state, in_choice in again[:2]:
+            if rng.random() < 0.7:
+                for _ in range(8):
+                    rf = self.refine(path, t, is_key, state, mod, no_mand=bool(in_choice) or mod != "fa")
+                    if rf is not None and {x.kw for x in rf.subs} & t.refined:
+                        done.add(path)
+                        u.add(rf)
+                        break
+        rng.shuffle(u.subs)
         conts = [(p, t) for p, t, k, st, ic in cands if t.kw in ("container", "list") and p not in done]
         if conts and rng.random() < 0.4:
             p, t = rng.choice(conts)
@@ -1106,11 +1137,20 @@ class SetGen(Gen):
         self.fl.groupings["fa"]["g2"] = g2
         fa.add(g1, g3)
         sub.add(g2)
+        self.top_grouping = "g2"
+        if rng.random() < 0.4:
+            g2x = S("grouping", "g2x")
+            g2x.subs += self.children("fa", 0, rng.choice([0, 1]))
+            g2x.add(self.uses("g2", "fa"))
+            g2x.stamp("fa")
+            self.fl.groupings["fa"]["g2x"] = g2x
+            fa.add(g2x)
+            self.top_grouping = "g2x"
         # data
         top = S("container", "top")
         top.add(S("leaf", "mode").add(S("type", "enumeration").add(S("enum", "x"), S("enum", "y")), S("default", "x")))
         top.subs += self.children("fa", 2, rng.choice([1, 2, 3]))
-        top.add(self.uses("g2", "fa", scope_top=True))
+        top.add(self.uses(self.top_grouping, "fa", scope_top=True))
         li = self.lst("fa", 1)
         li.add(self.uses("g3", "fa"))
         top.add(li)
@@ -1289,6 +1329,49 @@ class SetGen(Gen):
                         "type" in ({s.kw for s in a.subs} | {s.kw for s in b.subs}) or a.arg == b.arg:
                     dev.subs = [first]
         return dev if dev.subs else None
+
+
+NODE_KW = ("container", "leaf", "leaf-list", "list", "choice", "case", "anydata", "anyxml")
+
+
+def sort_aug_runs(text, names):
+    """sort every maximal run of sibling nodes whose names are in [names] (children added by uses-augments)"""
+    lines = text.split("\n")
+
+    def block(i):
+        """parse the statement starting at line i -> (list of lines or nested structure, next index)"""
+        ln = lines[i]
+        if not ln.rstrip().endswith("{"):
+            return [ln], i + 1
+        head, i = ln, i + 1
+        kids = []
+        while i < len(lines) and lines[i].strip() != "}":
+            sub, i = block(i)
+            kids.append(sub)
+        close = lines[i] if i < len(lines) else ""
+        # reorder runs
+        out, run = [], []
+
+        def nm(sub):
+            w = sub[0].strip().split(" ")
+            return w[1].strip('"') if len(w) > 2 and w[0] in NODE_KW and sub[0].rstrip().endswith("{") else None
+        for sub in kids:
+            if nm(sub) in names:
+                run.append(sub)
+            else:
+                out += sorted(run, key=nm) + [sub]
+                run = []
+        out += sorted(run, key=nm)
+        flat = [head]
+        for sub in out:
+            flat += sub
+        flat.append(close)
+        return flat, i + 1
+    res, i = [], 0
+    while i < len(lines):
+        b, i = block(i)
+        res += b
+    return "\n".join(res)
 
 
 def norm_print(text):
@@ -1627,7 +1710,7 @@ def make_sets(rng):
     fl.dev_mismatch = False
     f0 = {"fa": fl.flatten_module("fa", devs), "fb": fl.flatten_module("fb"), "fd": fd_plain}
     assert not fl.dev_mismatch, "generator: a deviate delete without a matching property"
-    return mods, f0, build_model(f0["fa"], f0["fb"])
+    return mods, f0, (build_model(f0["fa"], f0["fb"]), getattr(fl, "uses_aug_names", set()))
 
 
 def feats_arg(env):
@@ -1657,14 +1740,14 @@ class FlattenEquiv:
         return max(1, int((thorough if tier == "thorough" else quick) * scale))
 
     def build_case(self, rng, envs=None):
-        mods, f0, model = make_sets(rng)
+        mods, f0, (model, augnames) = make_sets(rng)
         cmds, meta = [], []
 
         def add(cmd, *m):
             cmds.append(cmd)
             meta.append(m)
         for k, v in mods.items():
-            add("def s/%s %s" % (k, hexs(v.text())), "def")
+            add("def s/%s %s" % (k, hexs(v.text())), "def", augnames)
         for k, v in f0.items():
             add("def f/%s %s" % (k, hexs(v.text())), "def")
         allenvs = [dict(zip(FEATS, bits)) for bits in itertools.product([False, True], repeat=3)]
@@ -1724,8 +1807,9 @@ class FlattenEquiv:
                 return (None, "features %d: the structured set %s, the flattened twin %s: %s / %s" %
                         (ei, "loads" if oks else "is rejected", "loads" if okf else "is rejected", ls, lf))
             judged = True
-            ps = norm_print(unhex(next(x for m, x in S_ if m[0] == "schema").split(" ")[1]).decode())
-            pf = norm_print(unhex(next(x for m, x in F_ if m[0] == "schema").split(" ")[1]).decode())
+            augnames = meta[0][1] if len(meta[0]) > 1 else set()
+            ps = sort_aug_runs(norm_print(unhex(next(x for m, x in S_ if m[0] == "schema").split(" ")[1]).decode()), augnames)
+            pf = sort_aug_runs(norm_print(unhex(next(x for m, x in F_ if m[0] == "schema").split(" ")[1]).decode()), augnames)
             if ps != pf:
                 import difflib
                 d = "".join(list(difflib.unified_diff(ps.splitlines(1), pf.splitlines(1), "structured", "flattened", n=2))[:40])
@@ -1744,6 +1828,15 @@ class FlattenEquiv:
             for (m, xs), (_, xf) in zip(ds, df):
                 lab, doc = m[3], m[4]
                 vs, vf = xs.split("~")[0].split(" ")[0], xf.split("~")[0].split(" ")[0]
+                if vs == "0" and vf == "0" and xs != xf:
+                    # the same content? (the order of siblings follows the schema order, see sort_aug_runs)
+                    import json as _json
+                    try:
+                        same = _json.loads(unhex(xs.split(" ")[1]).decode()) == _json.loads(unhex(xf.split(" ")[1]).decode())
+                    except (ValueError, IndexError):
+                        same = False
+                    if same:
+                        xf = xs
                 if vs != vf or (vs == "0" and xs != xf):
                     return (None, "features %d: document (%s) %s: structured %s, flattened %s" % (ei, lab, doc[:300], xs[:120], xf[:120]))
                 if lab == "valid" and vs != "0":
@@ -1763,7 +1856,7 @@ class LoadOrder(FlattenEquiv):
     name = "load-order"
 
     def build_case(self, rng):
-        mods, f0, model = make_sets(rng)
+        mods, f0, (model, augnames) = make_sets(rng)
         env = {f: rng.random() < 0.6 for f in FEATS}
         fa = feats_arg(env)
         cmds, meta = [], []
@@ -1874,9 +1967,6 @@ class Family:
         self.texts = {}
         self.docs = []          # (label, xml, condition AST or None = only compared between histories)
         self.before = []        # (m1, m2): m1 has to be implemented before m2 is loaded
-        # hc depends on ha only through a typedef-only / deviation-only module: listed finding
-        # depset-skips-typedef-deviation-modules (patch /var/tmp/patches/compile-6.diff; remove with the fix)
-        self.depset_risk = False
         self.build()
 
     def qfeat(self):
@@ -1926,7 +2016,6 @@ class Family:
                 ht += "  import ha {prefix a;}\n  typedef te {type enumeration {enum e1; enum e2 {if-feature a:%s;}}}\n" % self.ht_dep.split(":")[1]
             ht += "  typedef tt {type string {length \"1..8\";}}\n}\n"
             T["ht"] = ht
-            self.depset_risk = self.depset_risk or bool(self.ht_dep)
         hc = "module hc {yang-version 1.1; namespace urn:hc; prefix c;\n"
         if opt["ht"]:
             hc += "  import ht {prefix t;}\n"
@@ -2039,7 +2128,6 @@ class Family:
                 self.docs.append(("deviated-enum-d1", '<cc xmlns="urn:hc"><cl>d1</cl></cc>', None))
                 self.docs.append(("deviated-enum-d2", '<cc xmlns="urn:hc"><cl>d2</cl></cc>', "ha:f1"))
             T["hd"] = hd
-            self.depset_risk = self.depset_risk or "a:tae" in hd
         else:
             self.docs.append(("cl", '<cc xmlns="urn:hc"><cl>abc</cl></cc>', None))
         # a module that does not compile (leafref to a node that does not exist): loading it must leave no trace
@@ -2157,7 +2245,7 @@ class HistoryIndep(FlattenEquiv):
         for hi_, kind in enumerate(kinds):
             what, opts, steps = self.history(rng, fam, final, kind)
             c = "c%d" % (hi_ % 8)
-            add("ctx %s %d s" % (c, opts), "ctx", hi_, what, fam.depset_risk)
+            add("ctx %s %d s" % (c, opts), "ctx", hi_, what)
             for op, m, f in steps:
                 fail = op.endswith("!")
                 op = op.rstrip("!")
@@ -2192,21 +2280,17 @@ class HistoryIndep(FlattenEquiv):
         if len(r) != len(meta):
             return (None, "protocol: %d results for %d commands" % (len(r), len(meta)))
         var = {}
-        v_risk = False
         for m, x in zip(meta, r):
             if m[0] == "def":
                 continue
             v = var.setdefault(m[1], {"what": "", "obs": [], "steps": []})
             if m[0] == "ctx":
                 v["what"] = m[2]
-                v_risk = m[3]
             elif m[0] == "step":
                 v["steps"].append((m[2], x))
             else:
                 v["obs"].append((m, x))
         ref = var[0]
-        ENUM_DOCS = ("enum-of-typedef-module", "deviated-enum-d2")
-        known_hit = None
         for vi in sorted(var):
             v = var[vi]
             for fail, x in v["steps"]:
@@ -2224,7 +2308,7 @@ class HistoryIndep(FlattenEquiv):
                 if m[0] == "doc":
                     acc = x.split("~")[0].split(" ")[0] == "0"
                     if m[3] is not None and acc != m[3]:
-                        problems.append((m[2] in ENUM_DOCS, "document %s %s, expected %s (%s)" %
+                        problems.append((False, "document %s %s, expected %s (%s)" %
                                          (m[2], "accepted" if acc else "rejected", "valid" if m[3] else "invalid", x[:100])))
                 if m[0] == "obs" and m[2] == "module list":
                     x, x0 = ";".join(sorted(x.split(";"))), ";".join(sorted(x0.split(";")))      # the order is that of loading
@@ -2235,17 +2319,7 @@ class HistoryIndep(FlattenEquiv):
                         d = list(difflib.unified_diff(unhex(x0.split(" ")[1]).decode().splitlines(1),
                                                       unhex(x.split(" ")[1]).decode().splitlines(1), "reference", "history", n=2))
                         a = "".join(d[:30])
-                        changed = {ln[1:].strip() for ln in d[2:] if ln[:1] in "+-"}
-                        known = m[2] == "compiled print of hc" and changed <= {'enum "e2" {', 'enum "d2" {', "value 1;", "}"}
-                    elif m[0] == "doc":
-                        known = m[2] in ENUM_DOCS
                     problems.append((known, "%s differs from the reference history:\n%s" % (m[2], a[:1200])))
             if problems:
-                if v_risk and all(k for k, _ in problems):
-                    # an instance of the listed finding; the other histories are still judged
-                    known_hit = known_hit or ("depset-skips-typedef-deviation-modules",
-                                              "history [%s]: %s" % (v["what"], problems[0][1][:600]))
-                    continue
-                bad = [t for k, t in problems if not (k and v_risk)]
-                return (None, "history [%s]: %s" % (v["what"], bad[0]))
-        return known_hit
+                return (None, "history [%s]: %s" % (v["what"], problems[0][1]))
+        return None
